@@ -73,7 +73,9 @@ type Result struct {
 	Bounds    map[string]*big.Rat // path -> admissible error bound before presentation (currency units)
 	HasTotals bool
 	Stats     Stats
-	Prices    []Dec // presented item price per line (after conversion / breakdown); Units nil when the line has no price
+	// PreTaxTotal is sum - discounts + charges before any tax is removed or added (working precision)
+	PreTaxTotal Dec
+	Prices      []Dec // presented item price per line (after conversion / breakdown); Units nil when the line has no price
 }
 
 type calc struct {
@@ -609,25 +611,103 @@ func Calculate(p docgen.Plan, env Env, rows Rows) (*Result, error) {
 	res.HasTotals = true
 
 	// ---- taxes ----
+	cats, TAXSUM, err := c.taxes(trows, p.PricesInclude, "totals.taxes")
+	if err != nil {
+		return nil, err
+	}
+	res.PreTaxTotal = TOTAL.D
+
+	// ---- totals ----
+	if p.PricesInclude != "" {
+		for _, cg := range cats {
+			if cg.code == p.PricesInclude {
+				TOTAL = c.sub(TOTAL, cg.amount)
+				c.present("totals.tax_included", cg.amount, cc)
+				break
+			}
+		}
+	}
+	TWT := c.add(TOTAL, TAXSUM)
+	PAYABLE := TWT
+	if p.TotalsRounding != "" {
+		r := mustDec(p.TotalsRounding)
+		PAYABLE = c.add(PAYABLE, c.tv(r))
+		c.fig["totals.rounding"] = r.String()
+	}
+	c.present("totals.sum", SUM, cc)
+	if DISCOUNT != nil {
+		c.present("totals.discount", *DISCOUNT, cc)
+	}
+	if CHARGE != nil {
+		c.present("totals.charge", *CHARGE, cc)
+	}
+	c.present("totals.total", TOTAL, cc)
+	c.present("totals.tax", TAXSUM, cc)
+	c.present("totals.total_with_tax", TWT, cc)
+	c.present("totals.payable", PAYABLE, cc)
+	if (len(p.Advances) > 0 || len(p.DueDates) > 0) && p.Kind != "delivery" {
+		if len(p.Advances) > 0 {
+			ADV := c.tv(c.zero())
+			for i, a := range p.Advances {
+				var amount TV
+				if a.Amount != "" {
+					amount = c.tv(mustDec(a.Amount))
+				} else {
+					amount = c.tv(ratref.NewDec(0, 0))
+				}
+				if a.Percent != "" {
+					amount = c.mul(TWT, mustPct(a.Percent))
+				}
+				amount = c.upTV(amount, cc)
+				ADV = c.add(c.upTV(ADV, amount.D.Exp), amount)
+				c.present(fmt.Sprintf("payment.advances[%d].amount", i), amount, cc)
+			}
+			c.present("totals.advance", ADV, cc)
+			c.present("totals.due", c.sub(PAYABLE, ADV), cc)
+		}
+		for i, d := range p.DueDates {
+			var amount TV
+			if d.Amount != "" {
+				amount = c.tv(mustDec(d.Amount))
+			} else {
+				amount = c.tv(ratref.NewDec(0, 0))
+			}
+			if d.Percent != "" {
+				pc := mustPct(d.Percent)
+				if pc.Units.Sign() != 0 {
+					amount = c.mul(PAYABLE, pc)
+				}
+			}
+			c.present(fmt.Sprintf("payment.terms.due_dates[%d].amount", i), amount, cc)
+		}
+	}
+	res.Stats = c.st
+	return res, nil
+}
+
+// taxes computes the tax summary of the given rows and presents it under prefix.
+func (c *calc) taxes(trows []taxRow, includes string, prefix string) ([]*catGroup, TV, error) {
+	env := c.env
+	cc := env.C
 	for i := range trows {
 		if len(trows[i].combos) > 0 {
 			trows[i].total = c.upTV(trows[i].total, cc+env.K2)
 		}
 	}
-	if p.PricesInclude != "" {
+	if includes != "" {
 		for i := range trows {
 			for _, cb := range trows[i].combos {
-				if cb.Cat != p.PricesInclude {
+				if cb.Cat != includes {
 					continue
 				}
 				if cb.Retained {
-					return nil, &ErrCalc{"cannot include retained category"}
+					return nil, TV{}, &ErrCalc{"cannot include retained category"}
 				}
 				if cb.Percent != nil {
 					f := Dec{Units: new(big.Int).Add(cb.Percent.Units, ratref.Pow10(cb.Percent.Exp)), Exp: cb.Percent.Exp}
 					t, err := c.div(trows[i].total, f)
 					if err != nil {
-						return nil, err
+						return nil, TV{}, err
 					}
 					trows[i].total = t
 				}
@@ -696,7 +776,7 @@ func Calculate(p docgen.Plan, env Env, rows Rows) (*Result, error) {
 				TAXSUM = c.add(TAXSUM, *cg.surcharge)
 			}
 		}
-		cp := fmt.Sprintf("totals.taxes.categories[%d]", ci)
+		cp := fmt.Sprintf("%s.categories[%d]", prefix, ci)
 		c.fig[cp+".code"] = cg.code
 		if cg.retained {
 			c.fig[cp+".retained"] = "true"
@@ -725,72 +805,37 @@ func Calculate(p docgen.Plan, env Env, rows Rows) (*Result, error) {
 		}
 	}
 	if len(cats) > 0 {
-		c.present("totals.taxes.sum", TAXSUM, cc)
+		c.present(prefix+".sum", TAXSUM, cc)
 	}
 
-	// ---- totals ----
-	if p.PricesInclude != "" {
-		for _, cg := range cats {
-			if cg.code == p.PricesInclude {
-				TOTAL = c.sub(TOTAL, cg.amount)
-				c.present("totals.tax_included", cg.amount, cc)
-				break
-			}
+	return cats, TAXSUM, nil
+}
+
+// TaxRow is one taxable row handed to CalcTaxes.
+type TaxRow struct {
+	Total  Dec
+	Combos []Combo
+}
+
+// CalcTaxes runs only the tax-summary part of the reference calculation over
+// explicit rows (used against tax.TotalCalculator directly). Figures are
+// presented under the prefix "taxes".
+func CalcTaxes(env Env, rows []TaxRow, includes string) (*Result, error) {
+	c := &calc{env: env, fig: map[string]string{}, bnd: map[string]*big.Rat{}}
+	res := &Result{Figures: c.fig, Bounds: c.bnd, HasTotals: true}
+	trows := make([]taxRow, len(rows))
+	for i, r := range rows {
+		if !Fits(r.Total) {
+			c.st.OutOfDomain = true
 		}
+		trows[i] = taxRow{total: c.tv(r.Total), combos: r.Combos}
 	}
-	TWT := c.add(TOTAL, TAXSUM)
-	PAYABLE := TWT
-	if p.TotalsRounding != "" {
-		r := mustDec(p.TotalsRounding)
-		PAYABLE = c.add(PAYABLE, c.tv(r))
-		c.fig["totals.rounding"] = r.String()
+	cats, sum, err := c.taxes(trows, includes, "taxes")
+	if err != nil {
+		return nil, err
 	}
-	c.present("totals.sum", SUM, cc)
-	if DISCOUNT != nil {
-		c.present("totals.discount", *DISCOUNT, cc)
-	}
-	if CHARGE != nil {
-		c.present("totals.charge", *CHARGE, cc)
-	}
-	c.present("totals.total", TOTAL, cc)
-	c.present("totals.tax", TAXSUM, cc)
-	c.present("totals.total_with_tax", TWT, cc)
-	c.present("totals.payable", PAYABLE, cc)
-	if (len(p.Advances) > 0 || len(p.DueDates) > 0) && p.Kind != "delivery" {
-		if len(p.Advances) > 0 {
-			ADV := c.tv(c.zero())
-			for i, a := range p.Advances {
-				var amount TV
-				if a.Amount != "" {
-					amount = c.tv(mustDec(a.Amount))
-				} else {
-					amount = c.tv(ratref.NewDec(0, 0))
-				}
-				if a.Percent != "" {
-					amount = c.mul(TWT, mustPct(a.Percent))
-				}
-				amount = c.upTV(amount, cc)
-				ADV = c.add(c.upTV(ADV, amount.D.Exp), amount)
-				c.present(fmt.Sprintf("payment.advances[%d].amount", i), amount, cc)
-			}
-			c.present("totals.advance", ADV, cc)
-			c.present("totals.due", c.sub(PAYABLE, ADV), cc)
-		}
-		for i, d := range p.DueDates {
-			var amount TV
-			if d.Amount != "" {
-				amount = c.tv(mustDec(d.Amount))
-			} else {
-				amount = c.tv(ratref.NewDec(0, 0))
-			}
-			if d.Percent != "" {
-				pc := mustPct(d.Percent)
-				if pc.Units.Sign() != 0 {
-					amount = c.mul(PAYABLE, pc)
-				}
-			}
-			c.present(fmt.Sprintf("payment.terms.due_dates[%d].amount", i), amount, cc)
-		}
+	if len(cats) == 0 {
+		c.present("taxes.sum", sum, env.C)
 	}
 	res.Stats = c.st
 	return res, nil
